@@ -39,12 +39,49 @@ def programs(seed, n, nops):
     return out
 
 
+def open_race(kind, mode):
+    """a view is being opened on another thread and is held between loading its instant and registering it
+    (pause point tracker.open.after_load, gc read lock held); meanwhile a writer overwrites, rotates (pullup + gc +
+    version-history maintenance), compacts.  After release the view must read its instant's state, now and after more
+    maintenance.  (pullup and gc take the exclusive gc lock, so they wait for the registration.)"""
+    from common import run_fjv
+    L = ["open %s" % mode, "ks h0 alpha", "put h0 61 01", "put h0 62 02", "rotate h0", "drain",
+         "pausepoint tracker.open.after_load 1 hold",
+         "thread r snap s0 open &", "waitpause tracker.open.after_load",
+         "thread w put h0 61 11 &", "sleep 50",
+         # a newer super-version is installed inside the window, then more writes
+         "thread w major h0 &", "sleep 100", "thread w put h0 62 12 &", "sleep 50"]
+    if kind == "pullup":
+        L += ["thread w rotate h0 &"]
+    elif kind == "gc":
+        L += ["thread w pullup &"]
+    else:
+        L += ["thread w major h0 &"]
+    L += ["sleep 200", "pausepoint tracker.open.after_load 1 off", "release tracker.open.after_load", "sleep 300",
+          "thread w put h0 62 22", "thread w rotate h0", "drain", "major h0", "thread w put h0 61 21", "thread w rotate h0", "drain",
+          "major h0", "gc", "thread r get s0 h0 61", "thread r scan s0 h0 fwd all", "get - h0 61"]
+    prog = "\n".join(L) + "\n"
+    o, raw, rc = run_fjv(prog, env_extra={"FJV_SYNC_TIMEOUT_MS": "8000"}, timeout=90)
+    n = len(L)
+    g, sc, last = o.get(n - 2), o.get(n - 1), o.get(n)
+    ok = (g == "some 01" and sc == "61=01,62=02" and last == "some 21")
+    return None if ok else ("view opened while %s ran concurrently reads %s / %s (expected some 01 / 61=01,62=02); latest %s"
+                            % (kind, g, sc, last), prog)
+
+
 def run(rep, tier, seed, build):
     n, nops = (240, 45) if tier == "quick" else (4000, 110)
     audit(rep, "props/C05.v", THEOREMS, build)
     progs = corpus("C05") + programs(seed, n, nops)
     res = run_seq(rep, progs)
-    coverage(rep, res, progs, RULE)
+    races = 0
+    for kind in ("pullup", "gc", "major"):
+        for mode in (("plain",) if tier == "quick" else ("plain", "sw", "occ")):
+            races += 1
+            bad = open_race(kind, mode)
+            if bad:
+                rep.violation("# C05: %s\n%s" % bad)
+    coverage(rep, res, progs, RULE, dict(open_race_schedules=races))
 
 
 def replay(rep, path, build):
